@@ -1,9 +1,102 @@
 (* C07 -- property theorems only (statements about model/Transform.v and model/TransformSem.v
-   with the shape switches read off /repo in gen/GenC07.v and gen/GenLang.v). *)
-From Coq Require Import List String.
-From Dagrt Require Import GenLang GenC07 Lang Transform TransformSem TransformProofs.
+   with the shape switches read off /repo in gen/GenC07.v and gen/GenLang.v).
 
-(* the traced semantics used by C07 computes the values of the core model (Lang.eval) *)
+   pass_ok F dg st0 t t' st' (proofs/TransformProofs.v) says, for the run of one pass that turned
+   tree t into t' and generator state st0 into st':
+     exists N I,  ext st0 st' N I                          (N / I = the names / ids generated: new, distinct)
+       /\ (forall x, In x N -> ~ In x (tvars t))            (no generated name occurs anywhere in t)
+       /\ (forall x, In x I -> ~ In x (tids t))             (no generated id is an id of t)
+       /\ (NoDup (tids t) -> NoDup (tids t'))               (ids stay unique)
+       /\ forall a, srel N (run F dg t a) (run F dg t' a)   (from every store a: if t runs without a Python
+                                                             exception, t' ends the same way, with the same
+                                                             events, equal values of every variable outside N,
+                                                             and a permutation of the same calls)
+   The side conditions (sd_leaf, fai_leaf, fci_leaf, ite_leaf : tstmt -> bool, proofs/TransformTree.v)
+   are decidable. *)
+From Coq Require Import List String Permutation.
+From Dagrt Require Import GenLang GenC07 Lang Sched Transform TransformSem TransformBasics TransformHoist
+     TransformSpec TransformMappers TransformLeaf TransformStmt TransformSd TransformTree TransformProj
+     TransformProofs.
+
+(* Full statement for the call isolator: every structured phase (leaves without loops, call-free
+   guards, function symbols that are not written variables), no restriction on where calls occur.
+   False of the code as it is (and of every combination of the three repairs): C07_refuted. *)
+Definition C07_full_statement : Prop :=
+  full_statement_for
+    (isolate_function_calls lang_lhs_sub_reads lang_loop_bound_reads c07_seed_node_vars c07_fci_passes_cond)
+    (seeded lang_lhs_sub_reads lang_loop_bound_reads c07_seed_node_vars).
+
+(* y <- (f(x) if c > 0 else x), c = 0: f is called by the output and not by the input *)
+Theorem C07_refuted : ~ C07_full_statement.
+Proof. exact (hoist_refuted _ _ _ _). Qed.
+Print Assumptions C07_refuted.
+
+(* the traced semantics computes the values of the core model (Lang.eval) *)
 Theorem C07_traced_values : forall F s e, snd (evalt F s e) = snd (eval F s e).
 Proof. exact evalt_snd. Qed.
 Print Assumptions C07_traced_values.
+
+(* eliminate_self_dependencies: semantics, call log, fresh names and ids -- every structured phase *)
+Theorem C07_self_dependencies : forall F dg lbr ords t t' st',
+  eliminate_self_dependencies lang_lhs_sub_reads lbr c07_seed_node_vars ords t = TOk (t', st') ->
+  forallb sd_leaf (tstmts t) = true ->
+  pass_ok F dg (seeded lang_lhs_sub_reads lbr c07_seed_node_vars t) t t' st'.
+Proof. exact (fun F dg => sd_thm F dg lang_lhs_sub_reads c07_seed_node_vars eq_refl eq_refl). Qed.
+Print Assumptions C07_self_dependencies.
+
+(* isolate_function_arguments; excluded: calls with non-variable arguments in a conditionally evaluated
+   position, keyword arguments not in sorted order *)
+Theorem C07_isolate_arguments_partial : forall F dg lbr t t' st',
+  isolate_function_arguments lang_lhs_sub_reads lbr c07_seed_node_vars t = TOk (t', st') ->
+  forallb fai_leaf (tstmts t) = true ->
+  pass_ok F dg (seeded lang_lhs_sub_reads lbr c07_seed_node_vars t) t t' st'.
+Proof. exact (fun F dg => fai_thm F dg lang_lhs_sub_reads c07_seed_node_vars eq_refl eq_refl). Qed.
+Print Assumptions C07_isolate_arguments_partial.
+
+(* isolate_function_calls (either shape of isolate_call, whenever it does not raise); excluded: calls in
+   a conditionally evaluated position *)
+Theorem C07_isolate_calls_partial : forall F dg lbr fixed t t' st',
+  isolate_function_calls lang_lhs_sub_reads lbr c07_seed_node_vars fixed t = TOk (t', st') ->
+  forallb fci_leaf (tstmts t) = true ->
+  pass_ok F dg (seeded lang_lhs_sub_reads lbr c07_seed_node_vars t) t t' st'.
+Proof. exact (fun F dg => fci_thm F dg lang_lhs_sub_reads c07_seed_node_vars eq_refl eq_refl). Qed.
+Print Assumptions C07_isolate_calls_partial.
+
+(* expand_IfThenElse; excluded: conditional expressions below a later operand of and/or *)
+Theorem C07_expand_conditionals_partial : forall F dg lbr t t' st',
+  expand_IfThenElse lang_lhs_sub_reads lbr c07_seed_node_vars c07_ite_flag_first t = TOk (t', st') ->
+  forallb ite_leaf (tstmts t) = true ->
+  pass_ok F dg (seeded lang_lhs_sub_reads lbr c07_seed_node_vars t) t t' st'.
+Proof.
+  exact (fun F dg => ite_thm F dg lang_lhs_sub_reads c07_seed_node_vars c07_ite_flag_first eq_refl eq_refl eq_refl).
+Qed.
+Print Assumptions C07_expand_conditionals_partial.
+
+(* the four passes in the order of fortran.py's process_ast; the side conditions on the three
+   intermediate trees are decidable and evaluated by the check on every case *)
+Theorem C07_pipeline_partial : forall F dg lbr fixed ords t t4,
+  run_passes lang_lhs_sub_reads lbr c07_seed_node_vars fixed c07_ite_flag_first ords fortran_pass_order t = TOk t4 ->
+  exists t1 t2 t3 g1 g2 g3 g4,
+    eliminate_self_dependencies lang_lhs_sub_reads lbr c07_seed_node_vars ords t = TOk (t1, g1) /\
+    isolate_function_arguments lang_lhs_sub_reads lbr c07_seed_node_vars t1 = TOk (t2, g2) /\
+    isolate_function_calls lang_lhs_sub_reads lbr c07_seed_node_vars fixed t2 = TOk (t3, g3) /\
+    expand_IfThenElse lang_lhs_sub_reads lbr c07_seed_node_vars c07_ite_flag_first t3 = TOk (t4, g4) /\
+    (forallb sd_leaf (tstmts t) = true -> forallb fai_leaf (tstmts t1) = true ->
+     forallb fci_leaf (tstmts t2) = true -> forallb ite_leaf (tstmts t3) = true ->
+     exists N1 N2 N3 N4,
+       (forall x, In x N1 -> ~ In x (tvars t)) /\ (forall x, In x N2 -> ~ In x (tvars t1)) /\
+       (forall x, In x N3 -> ~ In x (tvars t2)) /\ (forall x, In x N4 -> ~ In x (tvars t3)) /\
+       (NoDup (tids t) -> NoDup (tids t4)) /\
+       (forall a, srel (N1 ++ N2 ++ N3 ++ N4) (run F dg t a) (run F dg t4 a))).
+Proof.
+  exact (fun F dg => pipeline_thm F dg lang_lhs_sub_reads c07_seed_node_vars c07_ite_flag_first fortran_pass_order
+                                  eq_refl eq_refl eq_refl eq_refl).
+Qed.
+Print Assumptions C07_pipeline_partial.
+
+(* the repaired isolate_call handles the nested call on which the other shape raises TypeError *)
+Theorem C07_nested_call_total : exists r,
+  isolate_function_calls lang_lhs_sub_reads lang_loop_bound_reads c07_seed_node_vars c07_fci_passes_cond
+                         wit_nested = TOk r.
+Proof. exact (arity_repaired _ _ _). Qed.
+Print Assumptions C07_nested_call_total.
